@@ -2,8 +2,48 @@
 from .core import Job
 
 
+# value-array caches: (function, header, source file, table type, init function, extra init args in the invariant / in the call,
+#                      call text, static name, slots, kernel bodies removed)
+ARRAY_CACHES = [
+    ("reim_from_znx64_simple", "reim/reim_fft_private.h", "reim/reim_conversions.c", "REIM_FROM_ZNX64_PRECOMP", "init_reim_from_znx64_precomp", ", 0", ", log2bound",
+     "reim_from_znx64_simple(m, log2bound, r, (const int64_t*)a)", "precomp", 32, ["reim_from_znx64_ref"]),
+    ("cplx_from_znx32_simple", "cplx/cplx_fft_private.h", "cplx/cplx_conversions.c", "CPLX_FROM_ZNX32_PRECOMP", "init_cplx_from_znx32_precomp", "", "",
+     "cplx_from_znx32_simple(m, r, (const int32_t*)a)", "precomp", 32, ["cplx_from_znx32_ref"]),
+    ("cplx_from_tnx32_simple", "cplx/cplx_fft_private.h", "cplx/cplx_conversions.c", "CPLX_FROM_TNX32_PRECOMP", "init_cplx_from_tnx32_precomp", "", "",
+     "cplx_from_tnx32_simple(m, r, (const int32_t*)a)", "precomp", 32, ["cplx_from_tnx32_ref"]),
+    ("cplx_fftvec_mul_simple", "cplx/cplx_fft_private.h", "cplx/cplx_fftvec_ref.c", "CPLX_FFTVEC_MUL_PRECOMP", "init_cplx_fftvec_mul_precomp", "", "",
+     "cplx_fftvec_mul_simple(m, r, a, b)", "p", 31, ["cplx_fftvec_mul_ref", "cplx_fftvec_addmul_ref"]),
+    ("cplx_fftvec_addmul_simple", "cplx/cplx_fft_private.h", "cplx/cplx_fftvec_ref.c", "CPLX_FFTVEC_ADDMUL_PRECOMP", "init_cplx_fftvec_addmul_precomp", "", "",
+     "cplx_fftvec_addmul_simple(m, r, a, b)", "p", 31, ["cplx_fftvec_mul_ref", "cplx_fftvec_addmul_ref"]),
+    ("reim4_fftvec_mul_simple", "reim4/reim4_fftvec_private.h", "reim4/reim4_fftvec_addmul_ref.c", "REIM4_FFTVEC_MUL_PRECOMP", "init_reim4_fftvec_mul_precomp", "", "",
+     "reim4_fftvec_mul_simple(m, r, a, b)", "precomp", 32, ["reim4_fftvec_mul_ref", "reim4_fftvec_addmul_ref"]),
+    ("reim4_fftvec_addmul_simple", "reim4/reim4_fftvec_private.h", "reim4/reim4_fftvec_addmul_ref.c", "REIM4_FFTVEC_ADDMUL_PRECOMP", "init_reim4_fftvec_addmul_precomp", "", "",
+     "reim4_fftvec_addmul_simple(m, r, a, b)", "precomp", 32, ["reim4_fftvec_mul_ref", "reim4_fftvec_addmul_ref"]),
+    ("reim4_from_cplx_simple", "reim4/reim4_fftvec_private.h", "reim4/reim4_fftvec_conv_ref.c", "REIM4_FROM_CPLX_PRECOMP", "init_reim4_from_cplx_precomp", "", "",
+     "reim4_from_cplx_simple(m, r, a)", "precomp", 32, ["reim4_from_cplx_ref", "reim4_to_cplx_ref"]),
+    ("reim4_to_cplx_simple", "reim4/reim4_fftvec_private.h", "reim4/reim4_fftvec_conv_ref.c", "REIM4_TO_CPLX_PRECOMP", "init_reim4_to_cplx_precomp", "", "",
+     "reim4_to_cplx_simple(m, r, a)", "precomp", 32, ["reim4_from_cplx_ref", "reim4_to_cplx_ref"]),
+]
+
+
+def cache_jobs():
+    J = []
+    common = dict(props=["C15", "C12"], shape="S2", sources=["commons.c", "commons_private.c"], harness="simple_cache.c", entry="h_simple_cache", no_dfcc=True,
+                  cbmc_flags=["--no-signed-overflow-check", "--unwind", "3", "--unwinding-assertions"], timeout=600, waive=[r"no body for callee"])
+    J.append(Job(name="cache.reim_to_znx64_simple", defines={"WHICH": 0}, expect_statics={"reim_to_znx64_simple": ["p", "prev_log2bound"]},
+                 extra_gi=["--remove-function-body", "reim_to_znx64_ref"], functions=["reim_to_znx64_simple"],
+                 bound_note="loop-free, every argument value, ARBITRARY cache state satisfying the representation invariant (one slot keyed by m, divisor, log2bound); kernel bodies removed", **common))
+    for fn, hdr, src, typ, init, ix0, ix, call, var, nslot, bodies in ARRAY_CACHES:
+        d = {"WHICH": 1, "HDR": '"%s"' % hdr, "SRCFILE": '"%s"' % src, "T_": typ, "INIT_": init, "INITX0": ix0 or " ", "INITX": ix or " ", "SIMPLE_CALL": call,
+             "ALIAS": '"%s::1::%s"' % (fn, var), "NSLOT": nslot}
+        J.append(Job(name="cache." + fn, defines=d, expect_statics={fn: [var]}, extra_gi=[x for b in bodies for x in ("--remove-function-body", b)], functions=[fn],
+                     bound_note="loop-free, every m = 2^j (j < %d), ARBITRARY contents of the slot of the call and of one other ghost slot satisfying the invariant "
+                                "'empty or equal to what the real %s builds for 2^slot'; kernel bodies removed" % (nslot, init), **common))
+    return J
+
+
 def jobs(seed=0):
-    return [Job(name="static.inventory", props=["C12", "C15", "C07"], shape="S7", sources=[], harness="", entry="", kind="native",
+    return cache_jobs() + [Job(name="static.inventory", props=["C12", "C15", "C07"], shape="S7", sources=[], harness="", entry="", kind="native",
                 native_cmd=["python3", "tools/static_inventory.py"], functions=[], timeout=900,
                 bound_note="goto symbol tables + call graph of /repo's current sources; function pointers through module->func resolved "
                            "to the targets module_api.c stores, other indirect calls to every type-compatible function")]
